@@ -151,6 +151,32 @@ def load_known():
     return out
 
 
+def inconclusive_exit(prop, repo, tier, reason):
+    """The verifier could not decide (lost anchor / unsupported construct / solver limit).  That is never an alarm
+    by itself; but the bounded native twins still run on the real code, and a concrete failing input is reported."""
+    import replay
+    try:
+        tw = replay.run_twins(repo, [prop], tier)
+    except Exception as e:
+        tw = {'built': False, 'twins': [], 'fails': [], 'tail': repr(e), 'cmd': ''}
+    known = load_known()
+    fails = [f for f in tw['fails'] if not any(k['property'] == prop and k['obligation'] == 'bounded.' + f['name'] for k in known)]
+    if fails:
+        os.makedirs(os.path.join(VERIF, 'replay', 'out'), exist_ok=True)
+        rp = os.path.join(VERIF, 'replay', 'out', '%s-bounded.%s.json' % (prop, fails[0]['name']))
+        with open(rp, 'w') as f:
+            json.dump({'property': prop, 'failed_obligations': [{'obligation': 'bounded.' + x['name'], 'failing_input': x['failing_input']} for x in fails],
+                       'verifier': 'INCONCLUSIVE: ' + reason,
+                       'replay': {'found': True, 'twin': fails[0]['name'], 'failing_input': fails[0]['failing_input'], 'reproduce': tw['cmd']}}, f, indent=1)
+        print('INCONCLUSIVE(verifier) property=%s %s' % (prop, reason[:300]))
+        for x in fails:
+            print('FAILED-OBLIGATION property=%s obligation=bounded.%s site=public API (replay/twin.rs) : %s' % (prop, x['name'], x['failing_input'][:300]))
+        print('VIOLATION property=%s replay=%s' % (prop, rp))
+        sys.exit(1)
+    print('INCONCLUSIVE property=%s %s (bounded twins: %s)' % (prop, reason, 'no failing input' if tw['built'] else 'harness did not build'))
+    sys.exit(2)
+
+
 def main():
     ap = argparse.ArgumentParser()
     ap.add_argument('prop')
@@ -176,8 +202,7 @@ def main():
     try:
         report = weave.build(a.repo, out)
     except weave.LostAnchor as e:
-        print('INCONCLUSIVE property=%s weave: %s' % (prop, e))
-        sys.exit(2)
+        inconclusive_exit(prop, a.repo, tier, 'weave: %s' % e)
     fn_props = {f['path']: f['props'] for f in report['functions']}
 
     # 2. verify
@@ -194,8 +219,7 @@ def main():
 
     rel = [f for f in failures if relevant(f, prop, fn_props)]
     if inconclusive and not rel:
-        print('INCONCLUSIVE property=%s %s' % (prop, inconclusive))
-        sys.exit(2)
+        inconclusive_exit(prop, a.repo, tier, inconclusive)
 
     # 3. thorough extras: vacuity file, seeds
     extra_notes = []
@@ -225,22 +249,41 @@ def main():
         else:
             violations.append(f)
 
-    # 5. replay
+    # 5. native twins: bounded stand-in for the assumed contracts + replay search (one run serves both)
+    import replay
+    try:
+        tw = replay.run_twins(a.repo, [prop], tier)
+    except Exception as e:
+        tw = {'built': False, 'twins': [], 'fails': [], 'tail': repr(e), 'cmd': '', 'wall_s': 0}
+    bounded_violations = []
+    for fl in tw['fails']:
+        kf = next((k for k in known if k['property'] == prop and k['obligation'] == 'bounded.' + fl['name']), None)
+        if kf:
+            print('KNOWN-FINDING: property=%s %s [bounded.%s]' % (prop, kf['what'], fl['name']))
+            continue
+        bounded_violations.append({'message': 'bounded native run found a failing input', 'obligation': 'bounded.' + fl['name'], 'obligation_text': fl['failing_input'],
+                                   'declared_in': None, 'site': 'public API (replay/twin.rs)', 'line': 0, 'rendered': fl['failing_input']})
     replay_path = None
     found_input = None
-    if violations:
+    if violations or bounded_violations:
         os.makedirs(os.path.join(VERIF, 'replay', 'out'), exist_ok=True)
-        names = sorted(set((v['obligation'] or ('builtin@' + (v['site'] or '?'))) for v in violations))
+        allv = violations + bounded_violations
+        names = sorted(set((v['obligation'] or ('builtin@' + (v['site'] or '?'))) for v in allv))
         tag = re.sub(r'[^A-Za-z0-9_.-]', '_', names[0])[:80]
         replay_path = os.path.join(VERIF, 'replay', 'out', '%s-%s.json' % (prop, tag))
-        try:
-            import replay
-            found_input = replay.search(prop, a.repo, violations)
-        except Exception as e:  # the search is best effort and never changes the verdict
-            found_input = {'found': False, 'note': 'replay search failed to run: %r' % (e,)}
+        if not tw['built']:
+            found_input = {'found': False, 'note': 'twin harness did not build against this tree', 'tail': tw.get('tail', '')}
+        elif tw['fails']:
+            f0 = tw['fails'][0]
+            found_input = {'found': True, 'twin': f0['name'], 'failing_input': f0['failing_input'], 'reproduce': tw['cmd']}
+        else:
+            found_input = {'found': False, 'note': 'small-scope search over the public API found no failing input',
+                           'searched': [{'twin': t['name'], 'evaluations': t['evaluations']} for t in tw['twins']], 'reproduce': tw['cmd']}
         with open(replay_path, 'w') as f:
-            json.dump({'property': prop, 'failed_obligations': violations, 'replay': found_input,
-                       'checker_cmd': res['cmd'], 'reproduce': 'python3 /verif/tool/check.py %s' % prop}, f, indent=1)
+            json.dump({'property': prop, 'failed_obligations': allv, 'replay': found_input,
+                       'checker_cmd': res['cmd'], 'verus_output': [v['rendered'] for v in violations][:20],
+                       'reproduce': 'python3 /verif/tool/check.py %s' % prop}, f, indent=1)
+    violations = violations + bounded_violations
 
     # 6. evidence
     my_obls = [o for o in report['obligations'] if prop in obligation_props(o['name'])
@@ -296,7 +339,10 @@ def main():
             'not_extracted': report['not_extracted'],
             'extraction': {'items': len(report['items']), 'woven_sha256': report['woven_sha256'],
                            'source_items': report['items'][:400]},
-            'bounded_stand_ins': cfg.get('bounded', []),
+            'bounded_stand_ins': {'labelled': 'BOUNDED - never counted in obligations/discharged',
+                                  'what_they_stand_in_for': cfg.get('bounded', []),
+                                  'runs': [{'twin': t['name'], 'evaluations': t['evaluations'], 'ms': t['ms'], 'exhaustive_over_stated_menu': True} for t in tw['twins']],
+                                  'harness_built': tw['built'], 'cmd': tw.get('cmd'), 'wall_s': tw.get('wall_s')},
             'thorough_runs': extra_notes,
             'vacuity': vac,
             'explanation': cfg['explanation'],
